@@ -35,6 +35,11 @@ for name, patch in items.items():
                 fired[c] = {'violations': p.stdout.count('\nVIOLATION') + p.stdout.startswith('VIOLATION'), 'rules': sorted({k.split('|')[0] for k in keys})[:8],
                             'incomplete': inc[:3]}
         shutil.rmtree(env['SWV_EVIDENCE_DIR'], ignore_errors=True)
+        # the fact cache of the scratch tree is of no further use
+        th = subprocess.run([sys.executable, '-c', 'import sys; sys.path.insert(0, sys.argv[1]); import extract; print(extract.tree_hash())',
+                             V + '/rules'], env=env, capture_output=True, text=True).stdout.strip()
+        if th and os.path.isdir(V + '/.cache/facts/' + th):
+            shutil.rmtree(V + '/.cache/facts/' + th, ignore_errors=True)
         res[name] = {'fired': fired}
         print(name, '->', {c: v['rules'] or v['incomplete'] for c, v in fired.items()}, flush=True)
     finally:
